@@ -11,7 +11,6 @@ import (
 	"github.com/php-any/origami/runtime"
 	"github.com/php-any/origami/std"
 	"github.com/php-any/origami/std/php"
-	"github.com/php-any/origami/utils/vshim"
 
 	"verif/engine/runner"
 )
@@ -62,6 +61,9 @@ type world struct {
 	base     data.VM
 	temps    [maxSlots]*runtime.TempVM
 	uncaught data.Control
+	// pp caches, per VM, the parser used for the probe scripts of one observation round (one
+	// PrepareParse per VM and round; definitions always get a parser of their own).
+	pp [maxSlots]*parser.Parser
 }
 
 func newWorld(nm names, dir string) *world {
@@ -104,14 +106,28 @@ type runRes struct {
 	Msg  string
 }
 
+func (w *world) newRound() { w.pp = [maxSlots]*parser.Parser{} }
+
+func (w *world) probeParser(v int) *parser.Parser {
+	if w.pp[v] == nil {
+		w.pp[v] = w.parserFor(v)
+	}
+	return w.pp[v]
+}
+
 // run parses src with a parser bound to VM v and executes it on a context of that VM.
-func (w *world) run(v int, src, file string) runRes {
+func (w *world) run(v int, src, file string, probe bool) runRes {
 	var out strings.Builder
 	saved := data.WriteOutput
 	data.WriteOutput = func(s string) { out.WriteString(s) }
 	w.uncaught = nil
 	g := runner.Guard(func() {
-		p := w.parserFor(v)
+		var p *parser.Parser
+		if probe {
+			p = w.probeParser(v)
+		} else {
+			p = w.parserFor(v)
+		}
 		prog, acl := p.ParseString(src, file)
 		if acl != nil {
 			panic(acl)
@@ -270,7 +286,7 @@ func (w *world) observe(v int, pi int, name int) (val string, note string) {
 	case "::TAG":
 		src = "echo \\" + nm + "::TAG;"
 	}
-	r := w.run(v, src, "probe.zy")
+	r := w.run(v, src, "probe.zy", true)
 	switch r.Kind {
 	case "ok":
 		if r.Out == "" {
@@ -446,8 +462,8 @@ func canonID(m *model, h []Op, got string) string {
 // the full observation matrix is taken after the last op.
 func execute(h []Op, nm names, dir string, wantRaw bool) execResult {
 	res := execResult{Cats: map[string]int{}}
-	vshim.SetFuel(50_000_000)
-	defer vshim.SetFuel(0)
+	// fuel stays disarmed (a third of the run time otherwise): no op here loops; the pool's hang
+	// watchdog is the backstop and reports a hung worker as a worker death.
 	w := newWorld(nm, dir)
 	m := newModel()
 	usedNames := func() int {
@@ -473,6 +489,7 @@ func execute(h []Op, nm names, dir string, wantRaw bool) execResult {
 		}
 	}
 	for i, o := range h {
+		w.newRound()
 		switch o.K {
 		case opNewTemp:
 			slot := m.created + 1
@@ -483,7 +500,7 @@ func execute(h []Op, nm names, dir string, wantRaw bool) execResult {
 			w.temps[o.VM] = nil
 		case opDefine:
 			id := fmt.Sprintf("d%d", i)
-			w.run(o.VM, defSource(o.Kind, nm.of(o.Name), id), id+".zy")
+			w.run(o.VM, defSource(o.Kind, nm.of(o.Name), id), id+".zy", false)
 		}
 		m.apply(o, i)
 		switch o.K {
@@ -509,6 +526,7 @@ func execute(h []Op, nm names, dir string, wantRaw bool) execResult {
 		}
 	}
 	last := len(h) - 1
+	w.newRound()
 	for _, v := range m.live() {
 		for n := 0; n < nSym; n++ {
 			for pi := range probes {
